@@ -130,7 +130,11 @@ func (server *SugarDB) keysExist(ctx context.Context, keys []string) map[string]
 	exists := make(map[string]bool, len(keys))
 
 	for _, key := range keys {
-		_, ok := server.store[database][key]
+		entry, ok := server.store[database][key]
+		// A key whose expiry time has passed no longer exists, whether or not it has been removed yet.
+		if ok && entry.ExpireAt != (time.Time{}) && entry.ExpireAt.Before(server.clock.Now()) {
+			ok = false
+		}
 		exists[key] = ok
 	}
 
